@@ -281,10 +281,10 @@ func (q request) wire(id int) []byte {
 // ---------------------------------------------------------------------------------------------
 // the application under test
 
-type viewEngine struct{ last *string }
+type viewEngine struct{}
 
 func (*viewEngine) Load() error { return nil }
-func (v *viewEngine) Render(_ io.Writer, _ string, binding any, _ ...string) error {
+func (v *viewEngine) Render(out io.Writer, _ string, binding any, _ ...string) error {
 	m, _ := binding.(fiber.Map)
 	keys := make([]string, 0, len(m))
 	for k := range m {
@@ -295,8 +295,8 @@ func (v *viewEngine) Render(_ io.Writer, _ string, binding any, _ ...string) err
 	for _, k := range keys {
 		parts = append(parts, k, fmt.Sprint(m[k]))
 	}
-	*v.last = gen.HexList(parts)
-	return nil
+	_, err := io.WriteString(out, gen.HexList(parts)) // the handler picks the dump up from the response body
+	return err
 }
 
 type probeObs struct {
@@ -313,8 +313,8 @@ type probeObs struct {
 type site struct {
 	app     *fiber.App
 	scripts map[int][]action
-	obs     *probeObs
-	view    string
+	mu      sync.Mutex
+	obsBy   map[int]*probeObs // keyed by the local port of the connection the probe came in on
 }
 
 type bindN struct {
@@ -330,8 +330,8 @@ func fmtMsg(k, v string, level uint8, old bool) string {
 }
 
 func newSite() *site {
-	s := &site{scripts: map[int][]action{}}
-	s.app = fiber.New(fiber.Config{Views: &viewEngine{last: &s.view}})
+	s := &site{scripts: map[int][]action{}, obsBy: map[int]*probeObs{}}
+	s.app = fiber.New(fiber.Config{Views: &viewEngine{}})
 	s.app.Use(func(c fiber.Ctx) error {
 		c.Set("X-Mw", "1")
 		return c.Next()
@@ -397,9 +397,9 @@ func (s *site) observe(c fiber.Ctx) {
 	for _, m := range c.Redirect().OldInputs() {
 		o.old = append(o.old, fmtMsg(m.Key, m.Value, 0, true))
 	}
-	s.view = "-"
 	_ = c.Render("v", fiber.Map{})
-	o.view = s.view
+	o.view = string(c.Response().Body())
+	c.Response().ResetBody()
 	for _, k := range []string{"u", "r"} {
 		if v, ok := c.Locals(k).(string); ok {
 			o.locals = append(o.locals, v)
@@ -409,7 +409,13 @@ func (s *site) observe(c fiber.Ctx) {
 	}
 	o.base = c.BaseURL()
 	fullVector(c, o.full)
-	s.obs = o
+	port := 0
+	if a, ok := c.RequestCtx().LocalAddr().(*net.TCPAddr); ok {
+		port = a.Port
+	}
+	s.mu.Lock()
+	s.obsBy[port] = o
+	s.mu.Unlock()
 }
 
 var tErr = reflect.TypeOf((*error)(nil)).Elem()
@@ -568,22 +574,23 @@ func fullVector(c fiber.Ctx, full map[string]string) {
 // serving through fasthttp's connection loop
 
 type memConn struct {
-	r *bytes.Reader
-	w bytes.Buffer
+	r     *bytes.Reader
+	w     bytes.Buffer
+	lport int
 }
 
 func (c *memConn) Read(p []byte) (int, error)      { return c.r.Read(p) }
 func (c *memConn) Write(p []byte) (int, error)     { return c.w.Write(p) }
 func (*memConn) Close() error                      { return nil }
-func (*memConn) LocalAddr() net.Addr               { return &net.TCPAddr{IP: net.IPv4(127, 0, 0, 1), Port: 80} }
+func (c *memConn) LocalAddr() net.Addr             { return &net.TCPAddr{IP: net.IPv4(127, 0, 0, 1), Port: c.lport} }
 func (*memConn) RemoteAddr() net.Addr              { return &net.TCPAddr{IP: net.IPv4(10, 0, 0, 7), Port: 4242} }
 func (*memConn) SetDeadline(time.Time) error       { return nil }
 func (*memConn) SetReadDeadline(time.Time) error   { return nil }
 func (*memConn) SetWriteDeadline(time.Time) error  { return nil }
 
 // serveConn feeds the given wire bytes to one connection and returns everything the server wrote.
-func (s *site) serveConn(in []byte) []byte {
-	c := &memConn{r: bytes.NewReader(in)}
+func (s *site) serveConn(in []byte, lport int) []byte {
+	c := &memConn{r: bytes.NewReader(in), lport: lport}
 	_ = s.app.Server().ServeConn(c)
 	return c.w.Bytes()
 }
